@@ -230,6 +230,7 @@ func c34History(r *Rec, prop string, h int, nBlocks int) {
 	lim := sdkmath.NewInt(1_000_000_000_000)
 	var basketID uint64
 	dapps := []string{}
+	staleAt, staleStage, staleReq := 2+r.Rng.Intn(6), 0, uint64(0)
 	for b := 0; b < nBlocks; b++ {
 		var ops []c34Op
 		if b == 0 {
@@ -251,6 +252,49 @@ func c34History(r *Rec, prop string, h int, nBlocks int) {
 				}
 				return nil
 			}})
+		}
+		// a scripted strand woven into the random history: two open tipped requests, then — in later blocks — the first
+		// requester registers the covered record again with the same value (its date moves: the request is stale but
+		// still open), then the verifier handles the stale request. The tip must leave the escrow exactly once.
+		if b >= staleAt && staleStage < 3 {
+			ra, rb, rv := 0, 1, 2
+			switch staleStage {
+			case 0:
+				for _, who := range []int{ra, rb} {
+					who := who
+					ops = append(ops, c34Op{"ident-request", who, func(ctx sdk.Context) error {
+						recs := app.CustomGovKeeper.GetIdRecordsByAddress(ctx, A[who])
+						if len(recs) == 0 {
+							return fmt.Errorf("no records")
+						}
+						_, err := e.gs.RequestIdentityRecordsVerify(sdk.WrapSDKContext(ctx), govtypes.NewMsgRequestIdentityRecordsVerify(A[who], A[rv], []uint64{recs[0].Id}, sdk.NewInt64Coin("ukex", 700)))
+						if err == nil && who == ra {
+							staleReq = app.CustomGovKeeper.GetLastIdRecordVerifyRequestId(ctx)
+						}
+						return err
+					}})
+				}
+			case 1:
+				ops = append(ops, c34Op{"ident-reregister", ra, func(ctx sdk.Context) error {
+					recs := app.CustomGovKeeper.GetIdRecordsByAddress(ctx, A[ra])
+					if len(recs) == 0 {
+						return fmt.Errorf("no records")
+					}
+					return app.CustomGovKeeper.RegisterIdentityRecords(ctx, A[ra], []govtypes.IdentityInfoEntry{{Key: recs[0].Key, Info: recs[0].Value}})
+				}})
+			case 2:
+				approve := r.Rng.Intn(2) == 0
+				ops = append(ops, c34Op{"ident-handle-stale", rv, func(ctx sdk.Context) error {
+					cur := app.CustomGovKeeper.GetIdRecordsVerifyRequest(ctx, staleReq)
+					if cur == nil {
+						return fmt.Errorf("request gone")
+					}
+					e.allowIdx, e.allowAmt = ra, sdk.NewCoins(cur.Tip)
+					_, err := e.gs.HandleIdentityRecordsVerifyRequest(sdk.WrapSDKContext(ctx), govtypes.NewMsgHandleIdentityRecordsVerifyRequest(A[rv], staleReq, approve))
+					return err
+				}})
+			}
+			staleStage++
 		}
 		for t := 0; t < 1+r.Rng.Intn(4); t++ {
 			s := r.Rng.Intn(nAcc - 1)
@@ -292,7 +336,10 @@ func c34History(r *Rec, prop string, h int, nBlocks int) {
 				us := app.MultiStakingKeeper.GetAllUndelegations(w.ReadCtx())
 				id := uint64(1 + r.Rng.Intn(4))
 				signer := s
-				if len(us) > 0 {
+				if len(us) == 0 && r.Rng.Intn(5) != 0 {
+					continue
+				}
+				if len(us) > 0 && r.Rng.Intn(6) != 0 {
 					u := us[r.Rng.Intn(len(us))]
 					id = u.Id
 					if r.Rng.Intn(2) == 0 {
@@ -350,18 +397,47 @@ func c34History(r *Rec, prop string, h int, nBlocks int) {
 					return err
 				}})
 			case x < 86:
-				if len(dapps) == 0 {
+				live := app.Layer2Keeper.GetAllDapps(w.ReadCtx())
+				if len(live) == 0 {
 					continue
 				}
-				name := dapps[r.Rng.Intn(len(dapps))]
+				name := live[r.Rng.Intn(len(live))].Name
+				if r.Rng.Intn(8) == 0 && len(dapps) > 0 {
+					name = dapps[r.Rng.Intn(len(dapps))] // possibly removed at the end of its bootstrap period
+				}
 				if r.Rng.Intn(2) == 0 {
 					ops = append(ops, c34Op{"l2-bond", s, func(ctx sdk.Context) error {
 						_, err := e.ls.BondDappProposal(sdk.WrapSDKContext(ctx), &l2types.MsgBondDappProposal{Sender: A[s].String(), DappName: name, Bond: sdk.NewInt64Coin("ukex", amt)})
 						return err
 					}})
 				} else {
-					ops = append(ops, c34Op{"l2-reclaim", s, func(ctx sdk.Context) error {
-						_, err := e.ls.ReclaimDappBondProposal(sdk.WrapSDKContext(ctx), &l2types.MsgReclaimDappBondProposal{Sender: A[s].String(), DappName: name, Bond: sdk.NewInt64Coin("ukex", 1+amt/2)})
+					// reclaim by somebody who bonded (mostly): a part, or exactly the whole recorded bond
+					who := s
+					bonds := app.Layer2Keeper.GetAllUserDappBonds(w.ReadCtx())
+					var mine []l2types.UserDappBond
+					for _, ub := range bonds {
+						if ub.DappName == name && ub.Bond.Amount.IsPositive() {
+							mine = append(mine, ub)
+						}
+					}
+					whole := r.Rng.Intn(3) == 0
+					var ubSel *l2types.UserDappBond
+					if len(mine) > 0 && r.Rng.Intn(5) != 0 {
+						ubSel = &mine[r.Rng.Intn(len(mine))]
+						for i := range A {
+							if A[i].String() == ubSel.User {
+								who = i
+							}
+						}
+					}
+					ops = append(ops, c34Op{"l2-reclaim", who, func(ctx sdk.Context) error {
+						bond := sdk.NewInt64Coin("ukex", 1+amt/2)
+						if ubSel != nil && whole {
+							if cur := app.Layer2Keeper.GetUserDappBond(ctx, name, A[who].String()); cur.Bond.Amount.IsPositive() {
+								bond = cur.Bond
+							}
+						}
+						_, err := e.ls.ReclaimDappBondProposal(sdk.WrapSDKContext(ctx), &l2types.MsgReclaimDappBondProposal{Sender: A[who].String(), DappName: name, Bond: bond})
 						return err
 					}})
 				}
@@ -374,26 +450,61 @@ func c34History(r *Rec, prop string, h int, nBlocks int) {
 					_, err := e.gs.RequestIdentityRecordsVerify(sdk.WrapSDKContext(ctx), govtypes.NewMsgRequestIdentityRecordsVerify(A[s], A[other], []uint64{recs[0].Id}, sdk.NewInt64Coin("ukex", 200+amt)))
 					return err
 				}})
-			default:
-				// handle / cancel any pending request — by whoever is drawn (rightful party or not)
-				ops = append(ops, c34Op{"ident-handle-or-cancel", s, func(ctx sdk.Context) error {
-					rqs := app.CustomGovKeeper.GetAllIdRecordsVerifyRequests(ctx)
-					if len(rqs) == 0 {
-						return fmt.Errorf("no requests")
+			case x < 95:
+				// the owner registers one of its records again: with the SAME value (only the record's date moves: open
+				// requests covering it go stale without being cancelled) or with a new value (open requests are cancelled
+				// and their tips refunded)
+				same := r.Rng.Intn(3) != 0
+				ops = append(ops, c34Op{"ident-reregister", s, func(ctx sdk.Context) error {
+					recs := app.CustomGovKeeper.GetIdRecordsByAddress(ctx, A[s])
+					if len(recs) == 0 {
+						return fmt.Errorf("no records")
 					}
-					rq := rqs[r.Rng.Intn(len(rqs))]
-					if r.Rng.Intn(2) == 0 {
-						if rq.Verifier == A[s].String() {
+					v := recs[0].Value
+					if !same {
+						v += "x"
+					}
+					return app.CustomGovKeeper.RegisterIdentityRecords(ctx, A[s], []govtypes.IdentityInfoEntry{{Key: recs[0].Key, Info: v}})
+				}})
+			default:
+				// handle / cancel a pending request — mostly by the rightful party (the named verifier handles, the requester
+				// cancels), sometimes by whoever is drawn
+				rqs := app.CustomGovKeeper.GetAllIdRecordsVerifyRequests(w.ReadCtx())
+				if len(rqs) == 0 {
+					continue
+				}
+				rq := rqs[r.Rng.Intn(len(rqs))]
+				handle := r.Rng.Intn(3) != 0
+				signer := s
+				if r.Rng.Intn(4) != 0 {
+					want := rq.Address
+					if handle {
+						want = rq.Verifier
+					}
+					for i := range A {
+						if A[i].String() == want {
+							signer = i
+						}
+					}
+				}
+				approve := r.Rng.Intn(2) == 0
+				ops = append(ops, c34Op{"ident-handle-or-cancel", signer, func(ctx sdk.Context) error {
+					cur := app.CustomGovKeeper.GetIdRecordsVerifyRequest(ctx, rq.Id)
+					if cur == nil {
+						return fmt.Errorf("request gone")
+					}
+					if handle {
+						if cur.Verifier == A[signer].String() {
 							for i := range A {
-								if A[i].String() == rq.Address {
-									e.allowIdx, e.allowAmt = i, sdk.NewCoins(rq.Tip)
+								if A[i].String() == cur.Address {
+									e.allowIdx, e.allowAmt = i, sdk.NewCoins(cur.Tip)
 								}
 							}
 						}
-						_, err := e.gs.HandleIdentityRecordsVerifyRequest(sdk.WrapSDKContext(ctx), govtypes.NewMsgHandleIdentityRecordsVerifyRequest(A[s], rq.Id, r.Rng.Intn(2) == 0))
+						_, err := e.gs.HandleIdentityRecordsVerifyRequest(sdk.WrapSDKContext(ctx), govtypes.NewMsgHandleIdentityRecordsVerifyRequest(A[signer], rq.Id, approve))
 						return err
 					}
-					_, err := e.gs.CancelIdentityRecordsVerifyRequest(sdk.WrapSDKContext(ctx), govtypes.NewMsgCancelIdentityRecordsVerifyRequest(A[s], rq.Id))
+					_, err := e.gs.CancelIdentityRecordsVerifyRequest(sdk.WrapSDKContext(ctx), govtypes.NewMsgCancelIdentityRecordsVerifyRequest(A[signer], rq.Id))
 					return err
 				}})
 			}
